@@ -364,11 +364,16 @@ func (session *ServerCommandSession) feedSdp(rawSdp []byte) error {
 func (session *ServerCommandSession) handleAuthorized(requestCtx nazahttp.HttpReqMsgCtx) (string, error) {
 	if requestCtx.Headers.Get(HeaderAuthorization) != "" {
 		authorization := requestCtx.Headers.Get(HeaderAuthorization)
-		session.auth.ParseAuthorization(authorization)
+
+		// Judge this request by the credentials it carries: forget the fields parsed from an earlier request
+		// of this connection (only the nonce we challenged the connection with is kept), otherwise a header
+		// that cannot be parsed would be checked against the credentials of the previous, authorized request.
+		session.auth = Auth{challengeNonce: session.auth.challengeNonce}
+		parseErr := session.auth.ParseAuthorization(authorization)
 
 		// 解析出的鉴权方式需要与配置的鉴权方式一致,防止鉴权降级
-		if session.auth.Typ == AuthTypeBasic && session.authConf.AuthMethod == 0 ||
-			session.auth.Typ == AuthTypeDigest && session.authConf.AuthMethod == 1 {
+		if parseErr == nil && (session.auth.Typ == AuthTypeBasic && session.authConf.AuthMethod == 0 ||
+			session.auth.Typ == AuthTypeDigest && session.authConf.AuthMethod == 1) {
 			if session.auth.CheckAuthorization(requestCtx.Method, session.authConf.UserName, session.authConf.PassWord) {
 				return "", nil
 			}
